@@ -11,7 +11,7 @@ META = dict(
 
 def run(chk):
     t = facework.run(chk, 'C16', {'none': (600, 20000), 'hostile': (600, 20000), 'dir': (500, 20000), 'trunc': (400, 20000), 'fuzz': (120, 20000), 'sweep': (600, 30000),
-                                  'field': (600, 30000), 'random': (400, 30000)})
+                                  'field': (600, 30000), 'rel': (600, 30000), 'random': (400, 30000)})
     chk.coverage['rule'] = ('one case = one face history (see C01 for the mutation kinds; here well-formed fonts, missing/zero-length/hostile tables and directory damage dominate); '
                             'non-trivial: histories whose face loaded after a mutation or failed to load; distinct by per-case seed / enumeration index')
     chk.require(t.get('table_gets', 0) > 10000, 'too few table events')
